@@ -661,6 +661,10 @@ COLORS = {'red': ['#f00', '#ff0000', 'rgb(255,0,0)', 'rgb(100%,0%,0%)', '#FF0000
           '#00800040': ['#00800040'],
           'transparent': ['rgba(0,0,0,0)', '#0000', '#00000000', 'hsla(0,0%,0%,0)']}
 ALPHA_COLORS = ['rgba(255,0,0,0.5)', '#0000ff44', '#00800040', 'transparent']
+GROUP_FORMING = [('opacity', '0.5'), ('opacity', '0.25'), ('transform', 'translate(10 20)'), ('transform', 'scale(2)'),
+                 ('clip-path', 'url(#cp1)'), ('mask', 'url(#mk1)'), ('mix-blend-mode', 'multiply'), ('isolation', 'isolate'),
+                 ('filter', 'url(#f1)')]
+GROUP_DEFAULTS = ['filter', 'clip-path', 'mask', 'opacity', 'display', 'visibility', 'overflow']
 # (opacity property, colour property it multiplies with)
 OPACITY_OF = {'stop-opacity': 'stop-color', 'flood-opacity': 'flood-color', 'fill-opacity': 'fill', 'stroke-opacity': 'stroke'}
 COLOR_LIST = list(COLORS.keys())
@@ -804,6 +808,10 @@ def template():
                 E('line', 'l1', [('x1', '100'), ('y1', '100'), ('x2', '180'), ('y2', '120')]),
                 E('polyline', 'pl1', [('points', '100,150 130,170 160,150 180,180')]),
                 E('text', 't1', [('x', '20'), ('y', '110')], text='Text'),
+                # elements that produce no content: zero-size rect, r=0 circle, one-point polyline
+                E('rect', 'z1', [('x', '5'), ('y', '5'), ('width', '0'), ('height', '10')]),
+                E('circle', 'z2', [('cx', '30'), ('cy', '30'), ('r', '0')]),
+                E('polyline', 'z3', [('points', '5,5')]),
                 E('image', 'i1', [('x', '120'), ('y', '20'), ('width', '40'), ('height', '40'), ('xlink:href', PNG)]),
             ]),
         ]),
@@ -872,6 +880,13 @@ class Oracle:
         for ident, p, v in PINNED:
             if rng.below(5) > 0:
                 by_id(root, ident).decls.append(self.new_decl(p, v))
+        # the content-less elements often carry a group-forming property
+        for ident in ('z1', 'z2', 'z3'):
+            e = by_id(root, ident)
+            for _ in range(rng.choice([0, 1, 1, 2])):
+                p, v = rng.choice(GROUP_FORMING)
+                if e.winner(p) is None:
+                    e.decls.append(self.new_decl(p, v))
         for ident, p in (('s1', 'stop-color'), ('s2', 'stop-color'), ('ff', 'flood-color'), ('p1', 'fill'), ('l1', 'stroke'),
                          ('t1', 'fill')):
             e = by_id(root, ident)
@@ -1141,6 +1156,15 @@ class Oracle:
                     w = e.winner(pc)
                     if w is not None and w['cv'] in ALPHA_COLORS and not any(d['p'] == po for d in e.decls):
                         directed.append((e, po))
+        if not directed and rng.below(3) == 0:
+            # ... or: a default of a group-level property on an element that produces no content but has a
+            # group-forming property (must not leave an empty group behind)
+            for ident in ('z1', 'z2', 'z3'):
+                e = by_id(root, ident)
+                if e is not None and any((d['p'], d['cv']) in GROUP_FORMING for d in e.decls):
+                    for p in GROUP_DEFAULTS:
+                        if not any(d['p'] == p for d in e.decls):
+                            directed.append((e, p))
         for _ in range(20):
             e = rng.choice(list(els(root)))
             p = rng.choice(sorted(SPEC_INITIAL))
@@ -1161,7 +1185,7 @@ class Oracle:
             d['sel'] = rng.choice(['id', 'class'])
             d['kind'] = 'default'
             e.decls.append(d)
-            return 'default' + ('-opacity-on-alpha-colour' if p in OPACITY_OF and e.winner(OPACITY_OF[p]) is not None
+            return 'default' + ('-on-empty-element' if e.id in ('z1', 'z2', 'z3') else '') + ('-opacity-on-alpha-colour' if p in OPACITY_OF and e.winner(OPACITY_OF[p]) is not None
                                 and e.winner(OPACITY_OF[p])['cv'] in ALPHA_COLORS else '')
         return None
 
@@ -1679,7 +1703,7 @@ def run(ctx):
         "universal/type/id/class/compound/descendant/child selectors, `inherit` and !important; non-trivial = some CSS or style "
         "declaration applies.  find-attr: svg>g>g>path chains with 3 enumerated properties from attribute/CSS/style/inherit.  "
         "spelling: random base documents over all presentation properties (template with gradient, clipPath, mask, two filters, "
-        "marker, shapes, text, image) x {move to attribute/style/CSS by id/class/type, !important, universal and type-wide rules, "
+        "marker, shapes, content-less shapes with group-forming properties, text, image) x {move to attribute/style/CSS by id/class/type, !important, universal and type-wide rules, "
         "injected sheet, shadowed lower-precedence declarations, piles of 3-5 declarations around an (important) winner, explicit inherit (parent / ancestor / default), explicit default, "
         "equivalent units at dpi 72/96/300, colour (incl. alpha: rgba(), #rrggbbaa, #rgba, hsla(), transparent) and number notation, attribute order; explicit opacity defaults next to alpha colours} singly and in random compositions of 2-6; "
         "plus, for every inherited property alone on a g>g>g>leaf chain: value on the element vs `inherit` + value on the parent vs value only on an ancestor 1-3 levels up; distinct by document text.")
